@@ -87,6 +87,12 @@ def saveRefs (rec : Nat → List Nat → St → Except Err (St × List Nat)) :
       | .error e => .error e
     else saveRefs rec rs d s
 
+/-- `if dependent_objects is None: dependent_objects = []  elif obj in dependent_objects: throw(...)` -/
+def inDep (dep : Option (List Nat)) (x : Nat) : Bool :=
+  match dep with
+  | some d => decide (x ∈ d)
+  | none => false
+
 /-- `obj._save_(dependent_objects)`.  Returns the new state and the (mutated) `dependent_objects` list. -/
 def save (g : Graph) : Nat → Nat → Option (List Nat) → St → Except Err (St × List Nat)
   | 0, _, _, _ => .error .outOfFuel
@@ -94,7 +100,7 @@ def save (g : Graph) : Nat → Nat → Option (List Nat) → St → Except Err (
     let stx := statusOf s.status x
     if stx = .created ∨ stx = .modified then
       -- _save_principal_objects_
-      if (match dep with | some d => decide (x ∈ d) | none => false) then
+      if inDep dep x then
         .error (.cycle (dep.getD []))
       else
         let d := dep.getD [] ++ [x]
